@@ -11,18 +11,20 @@ ASSUMPTIONS = ["sequentially consistent interleavings at atomic-operation granul
                "one producer context and one consumer context"]
 LOOSE = ("TraceRingBufLoose", "TraceRingBufLoose.cfg")
 ACTIONS = ["PutLoadW", "PutLoadR", "PutStore", "PutPub", "GetLoadR", "GetLoadW", "GetRead", "GetPub", "EmptyLoadR", "EmptyLoadW"]
+# (configuration g adds PEmptyLoadR / PEmptyLoadW: ringbuf_empty called from the producer's side)
 
 PROGS = {
     "A": ([(0, 1), (1, 128), (0, 255)], [0, 1, 0, 0]),
     "B": ([(0, 255), (0, 0), (0, 127), (0, 128)], [0, 0, 1, 0, 0]),
     "C": ([(1, 1), (1, 128), (1, 255), (1, 0), (0, 127)], [0, 0, 0, 1, 0, 0, 0]),
     "D": ([(0, 1), (0, 2), (0, 3), (0, 4), (0, 5), (0, 6)], [0, 1, 0, 0, 0, 1, 0, 0]),
+    "E": ([(0, 7), (2, 0), (1, 9), (2, 0), (0, 11)], [0, 1, 0, 0]),
 }
-CFGS = [("a", 2, 1, "A"), ("b", 3, 2, "B"), ("c", 2, 0, "C"), ("d", 4, 3, "D"), ("e", 3, 1, "C"), ("f", 5, 4, "D")]
+CFGS = [("a", 2, 1, "A"), ("b", 3, 2, "B"), ("c", 2, 0, "C"), ("d", 4, 3, "D"), ("e", 3, 1, "C"), ("f", 5, 4, "D"), ("g", 3, 2, "E")]
 
 
 def conv(name, args):
-    return "S 1" if name.startswith("Put") else "S 0"
+    return "S 1" if name.startswith(("Put", "PEmpty")) else "S 0"
 
 
 def reset_line(ln, st, prog):
